@@ -436,6 +436,7 @@ def plan(tier, seed):
                       "3 style elements, every reference list of length <= 2 among them incl. a missing id (quick: no mixed missing lists) "
                       "x which of them set tts:color x element references (<= 2, incl. missing) x inline"))
   fams.append(_family("F-graph[region]", fam.fam_graph(False, True), "region target with 0-2 nested style children, nested style with a reference"))
+  fams.append(_family("F-refsep", fam.fam_refsep(), "style reference lists separated / padded by every kind of XML white space (space, two spaces, tab, LF, CR) on p and on a style element"))
   fams.append(_family("F-value", fam.fam_value(), "every value form of every IMSC 1.1 style attribute x 7 carriers (p, span, region, style, initial, set, nested style)"))
   fams.append(_family("F-spacelang", fam.fam_spacelang(), "xml:space {-,default,preserve} x xml:lang {-,fr,''} on tt, body, p, span"))
   fams.append(_family("F-mixed", fam.fam_mixed(4 if tier == "quick" else 5), "all child sequences of length <= 4 (5) over {text, white space, span, empty span, br, nested mixed span} in p and in span x {par,seq} x xml:space"))
@@ -448,5 +449,5 @@ def plan(tier, seed):
   fams.append(Family("E-dev", n_dev, dec_dev, check_dev, timeout=20.0,
                      note="every attribute of the seed documents (timing on every kind, parameters, xml:space, style references, tts:ruby, every "
                           "style attribute on 5 carriers) x malformed menu {empty, unknown keyword, non-numeric, extra component, extra junk, junk suffix, missing unit}"))
-  fams.append(_family("F-expr", fam.fam_expr(), "every time expression syntax x boundary values x frameRate x multiplier x tickRate x {begin,end,dur}"))
+  fams.append(_family("F-expr", fam.fam_expr(), "every time expression syntax x boundary values x frameRate (incl. malformed: ignored) x multiplier x tickRate x {begin,end,dur}"))
   return fams
